@@ -88,20 +88,21 @@ theorem C10_lowering_projects (f : FXRates α) (a : Nat → Nat → Dual α) (b 
 
 end Generic
 
-/-! ### values do not depend on the derivative order (ℝ) -/
+/-! ### values do not depend on the derivative order — for every scalar type, so bit for bit in f64 -/
+section Values
+variable {α : Type} [Add α] [Sub α] [Mul α] [Div α] [Neg α] [OfNat α 0] [OfNat α 1] [OfNat α 2]
+  [Transc α]
 
-theorem dual_mul_real (p : Bool) (a b : Dual ℝ) : (Dual.mul p a b).real = a.real * b.real := by
+
+theorem dual_mul_real (p : Bool) (a b : Dual α) : (Dual.mul p a b).real = a.real * b.real := by
   unfold Dual.mul Dual.aligned
   cases varsCmp p a.vars b.vars <;> simp [Dual.toUnionVars, Dual.toNewVars]
 
-theorem dual_recip_real (x : Dual ℝ) : (Dual.fDiv 1 x).real = 1 / x.real := by
-  show Transc.powf x.real (-1) * 1 = 1 / x.real
-  show x.real ^ (-1 : ℝ) * 1 = 1 / x.real
-  rw [Real.rpow_neg_one]; simp
+theorem dual_recip_real (x : Dual α) : (Dual.fDiv 1 x).real = 1 / x.real := rfl
 
 /-- taking the value is a homomorphism from the dual-number arithmetic of the triangulation to the
 float arithmetic -/
-theorem real_hom : FxHom (τ := Dual ℝ) (σ := ℝ) (fun d => d.real) :=
+theorem real_hom : FxHom (τ := Dual α) (σ := α) (fun d => d.real) :=
   ⟨fun a b => dual_mul_real false a b, dual_recip_real⟩
 
 theorem initArr_map {τ σ : Type} [FxOps τ] [FxOps σ] (h : τ → σ) (hh : FxHom h)
@@ -128,29 +129,32 @@ theorem initArr_map {τ σ : Type} [FxOps τ] [FxOps σ] (h : τ → σ) (hh : F
   | cons p ps ih => simp only [List.foldl_cons, List.map_cons]; rw [ih, hstep]
 
 /-- Switching derivative order never changes a rate's value: the first-order matrix built from the
-same quotes has, entry by entry, the zero-order matrix as its values (over ℝ; f64 rounding of
-`x^(-1)` against `1/x` is modelled, not verified). -/
-theorem C10_order_keeps_values (currencies : List String) (quotes : List (FXQuote ℝ))
-    (a1 : Nat → Nat → Dual ℝ) (h1 : createFxArray currencies quotes .one = some (.dual a1)) :
+same quotes has, entry by entry, the zero-order matrix as its values — for EVERY scalar type with the
+code's operations, hence bit for bit in f64: the value part of every dual-number operation the
+triangulation uses (product, reciprocal) is the float operation on the values.  (This is true of the code
+only since the repair of `f64 / Dual` recorded in known_findings.json: `a * x.pow(-1)` was 1 ulp off
+`a / x` for some `x`.) -/
+theorem C10_order_keeps_values (currencies : List String) (quotes : List (FXQuote α))
+    (a1 : Nat → Nat → Dual α) (h1 : createFxArray currencies quotes .one = some (.dual a1)) :
     ∃ a0, createFxArray currencies quotes .zero = some (.f64 a0) ∧ ∀ i j, (a1 i j).real = a0 i j := by
   unfold createFxArray at h1 ⊢
   simp only at h1 ⊢
   cases hf : fill currencies.length (fillFuel currencies.length)
       (initArr (List.map (fun p => (p.1.1, p.1.2, p.2.toDual))
         (List.map (fun q => (pairIdx currencies q, setOrder q.rate ADOrder.one [fxVarName q])) quotes))
-        (Dual.new (0 : ℝ) [])) [] with
+        (Dual.new (0 : α) [])) [] with
   | none => rw [hf] at h1; cases h1
   | some A =>
     rw [hf] at h1
     simp only [Option.map_some, Option.some.injEq, FxArray.dual.injEq] at h1
-    have hm := fill_map (fun d : Dual ℝ => d.real) real_hom currencies.length
+    have hm := fill_map (fun d : Dual α => d.real) real_hom currencies.length
       (fillFuel currencies.length)
       (initArr (List.map (fun p => (p.1.1, p.1.2, p.2.toDual))
         (List.map (fun q => (pairIdx currencies q, setOrder q.rate ADOrder.one [fxVarName q])) quotes))
-        (Dual.new (0 : ℝ) [])) []
+        (Dual.new (0 : α) [])) []
     rw [hf] at hm
-    rw [initArr_map (fun d : Dual ℝ => d.real) real_hom rfl] at hm
-    have hq : (List.map (fun p : Nat × Nat × Dual ℝ => (p.1, p.2.1, p.2.2.real))
+    rw [initArr_map (fun d : Dual α => d.real) real_hom rfl] at hm
+    have hq : (List.map (fun p : Nat × Nat × Dual α => (p.1, p.2.1, p.2.2.real))
         (List.map (fun p => (p.1.1, p.1.2, p.2.toDual))
           (List.map (fun q => (pairIdx currencies q, setOrder q.rate ADOrder.one [fxVarName q])) quotes)))
         = List.map (fun p => (p.1.1, p.1.2, p.2.toF64))
@@ -161,10 +165,12 @@ theorem C10_order_keeps_values (currencies : List String) (quotes : List (FXQuot
       simp only [Function.comp]
       cases q.rate <;> rfl
     rw [hq] at hm
-    have hz : (Dual.new (0 : ℝ) []).real = (0 : ℝ) := rfl
+    have hz : (Dual.new (0 : α) []).real = (0 : α) := rfl
     rw [hz] at hm
     refine ⟨(A.map fun d => d.real).fx, ?_, ?_⟩
     · rw [← hm]; rfl
     · intro i j; rw [← h1]; rfl
+
+end Values
 
 end Rateslib
